@@ -6,7 +6,15 @@ use std::sync::Mutex;
 
 static PRE: Mutex<(Vec<Failure>, u64)> = Mutex::new((Vec::new(), 0));
 
+/// replay one saved case; a panic while replaying it is a finding, not the end of the run
 pub fn dispatch(pid: &str, v: &Value) -> Vec<Failure> {
+    match std::panic::catch_unwind(std::panic::AssertUnwindSafe(|| dispatch_inner(pid, v))) {
+        Ok(r) => r,
+        Err(_) => vec![Failure { sig: format!("{pid}/panic/replay"), msg: format!("replaying the saved case panicked at {}", crate::framecheck::last_panic()), replay: v.clone() }],
+    }
+}
+
+fn dispatch_inner(pid: &str, v: &Value) -> Vec<Failure> {
     match pid {
         "C01" => crate::total::replay_c01(v),
         "C02" => crate::accept::replay_c02(v),
